@@ -123,9 +123,13 @@ def expected_contains(sh, q, holes=()):
     inside = True
     if sh['t'] == 'ring' and sh['amax'] - sh['amin'] < 360:
         ang_tol = math.degrees(0.02 / max(d, 1e-3)) + 2e-5
-        if min(abs(beta - sh['amin']), abs(beta - sh['amax'])) < ang_tol or beta < ang_tol or beta > 360 - ang_tol:
+        # the documented angle range read modulo full turns (a range through north such as 350..370 or -10..10
+        # included): independent of the code's expression - the bearing's offset from angle_min, reduced to [0, 360)
+        width = sh['amax'] - sh['amin']
+        off = math.fmod(math.fmod(beta - sh['amin'], 360.0) + 360.0, 360.0)
+        if min(off, 360.0 - off, abs(off - width)) < ang_tol or beta < ang_tol or beta > 360 - ang_tol:
             ok = False
-        inside = sh['amin'] <= beta <= sh['amax']
+        inside = off <= width
     lo, hi = boundary_rho(sh, beta)
     slack = 0.02
     if sh['t'] == 'ellipse':
@@ -237,8 +241,11 @@ def k_decision(name, sh, q, dec):
         return (f'Lemma {name} : ellipse_contains {glit(sh)} {plit(q)} = {b}.\nProof.\n{encl}'
                 f'  apply (K_ellipse_dec {w} _ _ _ _ _ _ _ {rlit(B0)}); [exact HB | k_side | c_ivl | ].\n'
                 f'  intros bb Hbb. c_unf. interval with (i_prec 80).\nQed.\n'), None
-    inang = sh['amin'] + 2e-5 <= B0 <= sh['amax'] - 2e-5
-    outang = B0 < sh['amin'] - 2e-5 or B0 > sh['amax'] + 2e-5
+    width = sh['amax'] - sh['amin']
+    turns = -math.floor((B0 - sh['amin']) / 360.0)          # v = B0 - amin + 360*turns lies in [0, 360)
+    v = B0 - sh['amin'] + 360.0 * turns
+    inang = 2e-5 <= v <= width - 2e-5
+    outang = width + 2e-5 < v < 360 - 2e-5
     if not (inang or outang):
         return None, 'decision-at-wedge-edge'
     if inang:
@@ -246,14 +253,13 @@ def k_decision(name, sh, q, dec):
     else:
         side = 'reflexivity'
     return (f'Lemma {name} : ring_contains {glit(sh)} {plit(q)} = {b}.\nProof.\n{encl}'
-            f'  apply (K_wedge_dec {w} _ _ _ _ _ _ _ _ {rlit(B0)} {"true" if inang else "false"}); '
-            f'[lra | exact HB | cbv beta iota; first [split; interval | left; interval | right; interval] | k_side | c_ivl | {side}].\nQed.\n'), None
+            f'  apply (K_wedge_dec {w} _ _ _ _ _ _ _ _ {rlit(B0)} ({turns})%Z {"true" if inang else "false"}); '
+            f'[lra | exact HB | cbv beta iota zeta; split; interval | k_side | c_ivl | {side}].\nQed.\n'), None
 
 
-def d36_signature(sh):
-    """signature of D36: a wedge whose angle range reaches or passes north from the west side (angle_max > 360, or
-    angle_max = 360 with angle_min > 0) or starts below 0: contains_coordinate compares the bearing of [0,360) with
-    the raw range.  The generators below never produce one; this guard keeps it that way."""
+def through_north(sh):
+    """a wedge whose angle range reaches or passes north (angle_max >= 360 or angle_min < 0): the class of the
+    repaired defect D36 (the bearing used to be compared with the raw range); generated on purpose below"""
     return sh['t'] == 'ring' and not is_full(sh) and (sh['amax'] >= 360 or sh['amin'] < 0)
 
 
@@ -272,6 +278,11 @@ def gen_shapes(rng, n):
         {'t': 'ring', 'c': (10.0, 45.0), 'rin': 1000.0, 'rout': 5000.0, 'amin': 30.0, 'amax': 120.0},
         {'t': 'ring', 'c': (-179.99, 38.7), 'rin': 500.0, 'rout': 984.0, 'amin': 200.0, 'amax': 340.0},
         {'t': 'ring', 'c': (50.0, -75.0), 'rin': 10.0, 'rout': 100000.0, 'amin': 0.0, 'amax': 90.0},
+        # regression D36: angle ranges through north
+        {'t': 'ring', 'c': (0.0, 0.0), 'rin': 100.0, 'rout': 1000.0, 'amin': 350.0, 'amax': 370.0},
+        {'t': 'ring', 'c': (20.0, 30.0), 'rin': 500.0, 'rout': 9000.0, 'amin': -40.0, 'amax': 25.0},
+        {'t': 'ring', 'c': (-120.0, -50.0), 'rin': 50.0, 'rout': 700.0, 'amin': 270.0, 'amax': 360.0},
+        {'t': 'ring', 'c': (75.0, 10.0), 'rin': 2000.0, 'rout': 40000.0, 'amin': 200.0, 'amax': 520.0},
     ]
     while len(out) < n:
         c = (rng.uniform(-180, 180), rng.uniform(-75, 75))
@@ -288,8 +299,12 @@ def gen_shapes(rng, n):
         elif t == 'ring':
             out.append({'t': 'ring', 'c': c, 'rin': r * rng.uniform(0.05, 0.95), 'rout': r, 'amin': 0.0, 'amax': 360.0})
         else:
-            a0 = rng.uniform(0, 350)
-            a1 = rng.uniform(a0 + 5, min(a0 + 300, 359.5))
+            if rng.random() < 0.3:                      # through north: 300..400, -60..30, ...
+                a0 = rng.choice([rng.uniform(200, 355), rng.uniform(-170, -5)])
+                a1 = rng.uniform(max(a0 + 5, 5 if a0 < 0 else 365), a0 + 300)
+            else:
+                a0 = rng.uniform(0, 350)
+                a1 = rng.uniform(a0 + 5, min(a0 + 300, 359.5))
             out.append({'t': 'ring', 'c': c, 'rin': r * rng.uniform(0.05, 0.95), 'rout': r, 'amin': a0, 'amax': a1})
     return out
 
@@ -431,9 +446,8 @@ def main():
         meta[nm] = dict(m, kind=kind, lemma=txt)
 
     for si, sh in enumerate(shapes):
-        if d36_signature(sh):
-            stats['wedge-across-north(D36, excluded)'] = stats.get('wedge-across-north(D36, excluded)', 0) + 1
-            continue
+        if through_north(sh):
+            ck.count('shape:wedge-through-north (regression D36)')
         kind = 'wedge' if (sh['t'] == 'ring' and not is_full(sh)) else sh['t']
         ck.count('shape:' + kind)
         shape = build(sh)
@@ -515,19 +529,16 @@ def main():
     for f in ck.findings:
         if f.get('status') == 'open' and f.get('signature') == 'curved_polygon_form_straddles_antimeridian' and am_rep == ('Ok', (True, False)):
             ck.known(f)
-    # D36 (known finding): a wedge whose angle range passes through north.  Deterministic replay; the seeded streams
-    # never contain such a wedge (d36_signature, checked per shape above).
-    for f in ck.findings:
-        if f.get('status') == 'open' and f.get('signature') == 'wedge_across_north':
-            rp = f['replay']
-            wsh = {'t': 'ring', 'c': canon(*rp['center']), 'rin': float(rp['inner']), 'rout': float(rp['outer']),
-                   'amin': float(rp['angle_min']), 'amax': float(rp['angle_max'])}
-            wq = direct(wsh['c'], float(rp['bearing']), (wsh['rin'] + wsh['rout']) / 2)
-            wrep = guarded(lambda: (build(wsh).contains_coordinate(C(wq)), build(wsh).to_polygon().contains_coordinate(C(wq))))
-            ck.cov['D36_replay'] = {'shape': wsh, 'q': wq, 'analytic': wrep[1][0] if wrep[0] == 'Ok' else wrep[1],
-                                    'polygon_form': wrep[1][1] if wrep[0] == 'Ok' else wrep[1]}
-            if wrep == ('Ok', (False, True)):
-                ck.known(f)
+    # D36 (repaired: 50821a8): a wedge whose angle range passes through north.  Deterministic regression: the
+    # analytic test must accept what the polygon form contains; the violation is reported again if it returns.
+    wsh = {'t': 'ring', 'c': (0.0, 0.0), 'rin': 100.0, 'rout': 1000.0, 'amin': 350.0, 'amax': 370.0}
+    wq = direct(wsh['c'], 5.0, 550.0)
+    wrep = guarded(lambda: (build(wsh).contains_coordinate(C(wq)), build(wsh).to_polygon().contains_coordinate(C(wq))))
+    ck.cov['D36_regression'] = {'shape': wsh, 'q': wq, 'analytic': wrep[1][0] if wrep[0] == 'Ok' else wrep[1],
+                                'polygon_form': wrep[1][1] if wrep[0] == 'Ok' else wrep[1]}
+    if wrep != ('Ok', (True, True)):
+        violations.append({'k': 'contains', 'shape': wsh, 'q': wq, 'clause': 'contains_def',
+                           'detail': f'wedge 350..370 at bearing 5: analytic/polygon-form answers {wrep[1]!r}, expected (True, True) [D36]'})
     # chord-error clause: fixed corpus only
     cbad, cn = chord_corpus_check()
     ck.cov['chord_corpus'] = {'queries': cn, 'disagreements': len(cbad)}
